@@ -2,11 +2,39 @@
 (* Model-checking instances of Commands: constants that a .cfg cannot hold. *)
 EXTENDS Commands
 AllFams == {"ali", "trn", "ctm", "tg", "er", "sub", "subrun", "mom", "momr"}
-\* default prefix/suffix, non-default prefix, non-default prefix AND suffix
-NamingsAll == {[pre |-> <<>>, suf |-> <<".", "p", "t">>],
-               [pre |-> <<"p", "_">>, suf |-> <<".", "p", "t">>],
-               [pre |-> <<"x", "-">>, suf |-> <<".", "t", "o", "k">>]}
 UttNames5 == <<<<"u", "1">>, <<"u", "2">>, <<"u", "t", "t", "3">>, <<"v">>, <<"w", "5">>>>
+Nm(pre, suf, utts, dir) == [pre |-> pre, suf |-> suf, utts |-> utts, dir |-> dir]
+\* default prefix/suffix, non-default prefix, non-default prefix AND suffix
+NamingsAll == {Nm(<<>>, <<".", "p", "t">>, UttNames5, <<>>),
+               Nm(<<"p", "_">>, <<".", "p", "t">>, UttNames5, <<>>),
+               Nm(<<"x", "-">>, <<".", "t", "o", "k">>, UttNames5, <<>>)}
+\* prefix / suffix / directory holding [ ] * ? : "t[s]-u1.pt";  "u1.[0].pt" in "e [v2]";  "a*u1?.pt" in "x[y]"
+GlobNamingsAll == {Nm(<<"t", "[", "s", "]", "-">>, <<".", "p", "t">>, UttNames5, <<>>),
+                   Nm(<<>>, <<".", "[", "0", "]", ".", "p", "t">>, UttNames5, <<"e", " ", "[", "v", "2", "]">>),
+                   Nm(<<"a", "*">>, <<"?", ".", "p", "t">>, UttNames5, <<"x", "[", "y", "]">>)}
+\* ids one of which is a proper prefix of another, the next character of the longer one sorting below the first
+\* character of the suffix ("." is 46, "-" 45, "+" 43):  r < r-a < r0  but  r-a.pt < r.pt < r0.pt ;
+\* ab < ab+1 < ab0  but  x[1]ab+1.tok < x[1]ab.tok < x[1]ab0.tok.  The corpus lists them in neither order; the
+\* fourth id is one that is not in the directory
+IdNamingsAll == {Nm(<<>>, <<".", "p", "t">>, <<<<"r", "0">>, <<"r">>, <<"r", "-", "a">>, <<"q">>>>, <<>>),
+                 Nm(<<"x", "[", "1", "]">>, <<".", "t", "o", "k">>, <<<<"a", "b">>, <<"a", "b", "0">>, <<"a", "b", "+", "1">>, <<"z", "z">>>>,
+                    <<"e", " ", "[", "v", "2", "]">>)}
+\* Deliberately wrong variants that the design invariants must reject (fault runs: `Selects <- SelectsGlob`, `ListKey <-
+\* ListKeyFileName`) -- otherwise the universes could not tell them from the right ones.
+\* (1) prefix, suffix and directory read as a shell pattern  dir/prefix*suffix  (fnmatch: * any string, ? any
+\*     character, [...] one of the characters listed)
+RECURSIVE GlobMatch(_, _)
+GlobMatch(p, s) ==
+  IF p = <<>> THEN s = <<>>
+  ELSE IF Head(p) = "*" THEN GlobMatch(Tail(p), s) \/ (s # <<>> /\ GlobMatch(p, Tail(s)))
+  ELSE IF Head(p) = "?" THEN s # <<>> /\ GlobMatch(Tail(p), Tail(s))
+  ELSE IF Head(p) = "[" /\ \E k \in 3..Len(p) : p[k] = "]"
+       THEN LET k == MinOf({j \in 3..Len(p) : p[j] = "]"})
+            IN s # <<>> /\ (\E j \in 2..(k - 1) : p[j] = Head(s)) /\ GlobMatch(SubSeq(p, k + 1, Len(p)), Tail(s))
+  ELSE s # <<>> /\ Head(s) = Head(p) /\ GlobMatch(Tail(p), Tail(s))
+SelectsGlob(nm, f) == GlobMatch(nm.dir \o <<"/">> \o nm.pre \o <<"*">> \o nm.suf, nm.dir \o <<"/">> \o f)
+\* (2) the directory listed by file name (sort the listing, strip prefix and suffix afterwards)
+ListKeyFileName(nm, i) == Codes(Name(nm, i))
 UnorderedOnly == {"unordered"}
 \* alignments
 AliSeqsQuick == UNION {[1..m -> {1, 2}] : m \in 1..3}
